@@ -170,6 +170,9 @@ func (z *zzBub) observe() {
 			if cur == "plotting" || cur == "mining" {
 				z.checkAsked(sid, cur)
 			}
+			if prev == "plotting" && (cur == "ready" || cur == "mining") {
+				z.checkLastRequestWins(sid, cur)
+			}
 			z.last[sid] = cur
 			z.hist[sid] = append(z.hist[sid], cur)
 			if z.trans == nil {
@@ -267,6 +270,64 @@ func (z *zzBub) checkAcceptedRequests() {
 		if !voided {
 			z.fail("C09", "accepted-request-without-effect/"+strings.TrimPrefix(strings.TrimPrefix(req.what, "bulk-"), "burst-"), "space %s is still registered although %s (events %d..%d) was acknowledged, nothing stopped, removed or deleted it afterwards, and the plotter has nothing left to do", zzShortSid(sid), req.what, req.inv, req.ret)
 		}
+	}
+}
+
+// checkLastRequestWins: a plot that completes leaves the space ready or mining. Both plot and mine
+// are documented for a plotting space (plot: plotting -> ready, mine: plotting -> mining), so when
+// the last acknowledged request that met the space while it was plotting came strictly after
+// every request of the other kind had returned, it decides the outcome.
+func (z *zzBub) checkLastRequestWins(sid, now string) {
+	var last *zzCall
+	lastOther := 0 // latest return of a request of the other kind
+	kindOf := func(c *zzCall) string {
+		if c.ret == 0 || c.err != nil {
+			return ""
+		}
+		bulkOK := false
+		if e, ok := c.acted[sid]; ok && e == nil {
+			bulkOK = true
+		}
+		switch {
+		case (c.what == "plot" || c.what == "burst-plot") && c.sid == sid, c.what == "bulk-plot" && bulkOK:
+			return "plot"
+		case (c.what == "mine" || c.what == "burst-mine") && c.sid == sid, c.what == "bulk-mine" && bulkOK:
+			return "mine"
+		}
+		return ""
+	}
+	for _, c := range z.calls {
+		if k := kindOf(c); k != "" && c.ret < z.seq && (last == nil || c.inv > last.inv) {
+			last = c
+		}
+	}
+	if last == nil || z.stateAt(sid, last.inv) != "plotting" || z.stateAt(sid, last.ret) != "plotting" {
+		return
+	}
+	lk := kindOf(last)
+	for _, c := range z.calls {
+		k := kindOf(c)
+		if c.ret == 0 && (strings.Contains(c.what, "plot") || strings.Contains(c.what, "mine")) && (c.sid == sid || c.sid == "") {
+			return // a request is still in flight: either outcome can be explained
+		}
+		if k != "" && k != lk && c.ret > lastOther {
+			lastOther = c.ret
+		}
+	}
+	if lastOther >= last.inv {
+		return // the two kinds overlapped: no order is implied
+	}
+	for _, c := range z.calls {
+		stopLike := (c.what == "stop" && c.sid == sid) || c.what == "bulk-stop" || c.what == "keeper-stop" || c.what == "keeper-start" ||
+			((c.what == "remove" || c.what == "delete") && c.sid == sid) || c.what == "bulk-remove" || c.what == "bulk-delete"
+		if stopLike && (c.ret == 0 || c.ret > last.inv) {
+			return // a stop came after it: the stop decides
+		}
+	}
+	want := map[string]string{"plot": "ready", "mine": "mining"}[lk]
+	if now != want {
+		z.fail("C09", "last-request-ignored/"+lk, "space %s finished plotting and became %s; the last request it was given while plotting was %s (events %d..%d, after every %s request had returned), which is documented to lead to %s",
+			zzShortSid(sid), now, last.what, last.inv, last.ret, map[string]string{"plot": "mine", "mine": "plot"}[lk], want)
 	}
 }
 
